@@ -12,6 +12,9 @@ SIG3 = (SIGMA[0], SIGMA[2], SIGMA[1])        # red, bold, blue
 TEXT_B = 'uvwxyz'
 
 
+SIG2 = (SIGMA[0], SIGMA[1])                   # red, blue (conflicting pair)
+
+
 def build_b(n, k, s1, r1, s2, r2, sigma=SIG3):
     s = AnsiString(TEXT_B[:n])
     steps = ((s1, r1),) if k == 1 else ((s1, r1), (s2, r2)) if k == 2 else ()
@@ -46,12 +49,12 @@ def check_cat(res, ta, tb, tab_a, tab_b):
 
 
 def h_cat(na: int, ka: int, a1: int, ar1: int, a2: int, ar2: int, at2: bool,
-          nb: int, kb: int, b1: int, br1: int, b2: int, br2: int, form: int):
+          nb: int, kb: int, b1: int, br1: int, b2: int, br2: int, form: int, bsig=SIG3):
     """form: 0 a+b, 1 a+=b, 2 join(a,b), 3 b is AnsiStr, 4 a is AnsiStr (a+b), 5 b plain str, 6 plain str + via join('x', b)."""
     a = build2(na, ka, a1, ar1, a2, ar2, at2, SIG3)
     if a is None:
         return None
-    b = build_b(nb, kb, b1, br1, b2, br2)
+    b = build_b(nb, kb, b1, br1, b2, br2, bsig)
     if b is None:
         return None
     fm = pick(form, 0, 6)
@@ -221,6 +224,12 @@ def obligations(tier):
             obs.append(Ob('cat/2x%d/a%d/r%d' % (f['kb'], a1, ar1), h_cat, f, need=('cat', 'seam-same', 'seam-different') if ar1 else ('cat',),
                           budget=900 if tier == 'quick' else 3000,
                           bounds='lengths 2+2, left 2 apply steps, right %d' % f['kb'], kinds=KINDS))
+    if tier == 'quick':
+        # right operand with two stacked settings of the conflicting pair (hidden / equal-valued nested settings)
+        for a1 in (0, 2):
+            for ar1 in range(3):
+                obs.append(Ob('cat/2x2c/a%d/r%d' % (a1, ar1), h_cat, dict(na=2, ka=2, a1=a1, ar1=ar1, at2=True, nb=2, kb=2, bsig=SIG2),
+                              need=('cat',), budget=900, bounds='lengths 2+2, left 2 apply steps, right 2 steps over (red, blue)', kinds=KINDS))
     for n in (1, 2) if tier == 'quick' else (1, 2, 3):
         obs.append(Ob('self/n%d' % n, h_self, dict(n=n, k=2), need=('self-cat',), budget=600, bounds='n=%d, 2 apply steps, a+a and a+=a' % n, kinds=KINDS))
     obs.append(Ob('join3/n1', h_join3, dict(n=1), need=('join3',), budget=300, bounds='three 1-char operands', kinds=KINDS))
